@@ -66,11 +66,44 @@ class SetBV:
         i = self.u.index(m)
         return z3.Extract(i, i, self.t) == z3.BitVecVal(1, 1)
 
+    # the read-only methods of Python's set, so that code written with them stays inside the translatable subset
+    def isdisjoint(self, o):
+        return (self.t & _bv(o, self)) == z3.BitVecVal(0, len(self.u))
+
+    def issubset(self, o):
+        return (self.t & ~_bv(o, self)) == z3.BitVecVal(0, len(self.u))
+
+    def issuperset(self, o):
+        return (_bv(o, self) & ~self.t) == z3.BitVecVal(0, len(self.u))
+
+    def union(self, *os_):
+        r = self
+        for o in os_:
+            r = r | o
+        return r
+
+    def intersection(self, *os_):
+        r = self
+        for o in os_:
+            r = r & o
+        return r
+
+    def difference(self, *os_):
+        r = self
+        for o in os_:
+            r = r - o
+        return r
+
+    def copy(self):
+        return SetBV(self.t, self.u)
+
+    METHODS = ('isdisjoint', 'issubset', 'issuperset', 'union', 'intersection', 'difference', 'copy')
+
 
 def _bv(o, like: SetBV):
     if isinstance(o, SetBV):
         return o.t
-    if isinstance(o, (set, frozenset)):
+    if isinstance(o, (set, frozenset, list, tuple)):
         return SetBV.of(o, like.u).t
     raise Unsupported(f'set operand {type(o)}')
 
@@ -118,15 +151,22 @@ class Tr:
         return n.value
 
     def ex_Name(self, n):
-        if n.id not in self.env:
-            raise Unsupported(f'free name {n.id}')
-        return self.env[n.id]
+        if n.id in self.env:
+            return self.env[n.id]
+        g = getattr(self, 'globals_', None) or {}
+        if n.id in g and isinstance(g[n.id], (int, str, tuple, frozenset, dict)) and not isinstance(g[n.id], bool):
+            return g[n.id]          # a module-level constant / table of the module under translation (read live)
+        raise Unsupported(f'free name {n.id}')
 
     def ex_UnaryOp(self, n):
         v = self.ex(n.operand)
         if isinstance(n.op, ast.USub):
             return -v
         if isinstance(n.op, ast.Not):
+            if isinstance(v, SetBV):
+                return z3.Not(v.nonempty())
+            if isinstance(v, Len):
+                return z3.Not(v.x.nonempty())
             return z3.Not(v) if z3.is_expr(v) else (not v)
         raise Unsupported(ast.dump(n)[:100])
 
@@ -163,6 +203,8 @@ class Tr:
 
     def ex_IfExp(self, n):
         t = self.ex(n.test)
+        if isinstance(t, SetBV):
+            t = t.nonempty()
         if not z3.is_expr(t):
             return self.ex(n.body) if t else self.ex(n.orelse)
         return ite(t, self.ex(n.body), self.ex(n.orelse))
@@ -242,6 +284,8 @@ class Tr:
             if n.attr not in base:
                 raise Unsupported(f'record has no field {n.attr}')
             return base[n.attr]
+        if isinstance(base, SetBV) and n.attr in SetBV.METHODS:
+            return getattr(base, n.attr)
         if z3.is_expr(base) or isinstance(base, SetBV):
             raise Unsupported(f'attribute {n.attr} of a symbolic value')
         return getattr(base, n.attr)
@@ -266,6 +310,46 @@ class Tr:
         if isinstance(f, ast.Name) and f.id == 'len' and 'len' not in self.env:
             arg = self.ex(n.args[0])
             return Len(arg) if isinstance(arg, SetBV) else len(arg)
+        if isinstance(f, ast.Name) and f.id in ('bool', 'set', 'frozenset') and f.id not in self.env and len(n.args) == 1 and not n.keywords:
+            arg = self.ex(n.args[0])
+            if f.id == 'bool':
+                if isinstance(arg, SetBV):
+                    return arg.nonempty()
+                if isinstance(arg, Len):
+                    return arg.x.nonempty()
+                return arg if z3.is_expr(arg) else bool(arg)
+            if isinstance(arg, SetBV):
+                return arg.copy()
+            if self.universe is not None and isinstance(arg, (set, frozenset, list, tuple)):
+                return SetBV.of(arg, self.universe)
+            raise Unsupported(f'{f.id}() of {type(arg).__name__}')
+        if (isinstance(f, ast.Name) and f.id in ('any', 'all') and f.id not in self.env and len(n.args) == 1
+                and isinstance(n.args[0], (ast.GeneratorExp, ast.ListComp)) and len(n.args[0].generators) == 1
+                and not n.args[0].generators[0].ifs and isinstance(n.args[0].generators[0].target, ast.Name)):
+            gen = n.args[0]
+            xs = self.ex(gen.generators[0].iter)
+            var = gen.generators[0].target.id
+            if isinstance(xs, SetBV):
+                # quantifier over the members of a symbolic set: unrolled over the universe, guarded by membership
+                parts = []
+                for c in xs.u:
+                    body = Tr({**self.env, var: c}, self.universe)
+                    body.globals_ = getattr(self, 'globals_', None)
+                    b = body.ex(gen.elt)
+                    b = b if z3.is_expr(b) else z3.BoolVal(bool(b))
+                    parts.append(z3.And(xs.member(c), b) if f.id == 'any' else z3.Implies(xs.member(c), b))
+                return z3.Or(*parts) if f.id == 'any' else z3.And(*parts)
+            if isinstance(xs, (list, tuple, set, frozenset)):
+                parts = []
+                for c in xs:
+                    body = Tr({**self.env, var: c}, self.universe)
+                    body.globals_ = getattr(self, 'globals_', None)
+                    parts.append(body.ex(gen.elt))
+                if all(not z3.is_expr(x) for x in parts):
+                    return any(parts) if f.id == 'any' else all(parts)
+                parts = [x if z3.is_expr(x) else z3.BoolVal(bool(x)) for x in parts]
+                return z3.Or(*parts) if f.id == 'any' else z3.And(*parts)
+            raise Unsupported(f'{f.id}() over {type(xs).__name__}')
         # set.union(*[elt for var in xs])
         if (isinstance(f, ast.Attribute) and f.attr == 'union' and isinstance(f.value, ast.Name) and f.value.id == 'set'
                 and len(n.args) == 1 and isinstance(n.args[0], ast.Starred)
@@ -280,6 +364,7 @@ class Tr:
             acc = SetBV.of([], xs.u)
             for c in xs.u:
                 sub = Tr({**self.env, var: c}, self.universe)
+                sub.globals_ = getattr(self, 'globals_', None)
                 body = sub.ex(lc.elt)
                 if not isinstance(body, SetBV):
                     body = SetBV.of(body, xs.u)
@@ -309,11 +394,17 @@ class Tr:
                 return ('ret', RAISE)
             elif isinstance(st, ast.If):
                 t = self.ex(st.test)
+                if isinstance(t, SetBV):
+                    t = t.nonempty()
+                elif isinstance(t, Len):
+                    t = t.x.nonempty()
                 rest = stmts[i + 1:]
                 if not z3.is_expr(t):
                     return self.block((st.body if t else st.orelse) + rest)
-                a = Tr(self.env, self.universe).block(st.body + rest)
-                b = Tr(self.env, self.universe).block(st.orelse + rest)
+                ta, tb = Tr(self.env, self.universe), Tr(self.env, self.universe)
+                ta.globals_ = tb.globals_ = getattr(self, 'globals_', None)
+                a = ta.block(st.body + rest)
+                b = tb.block(st.orelse + rest)
                 if a is None or b is None:
                     raise Unsupported('branch without return')
                 return ('ret', ite(t, a[1], b[1]))
@@ -365,6 +456,7 @@ def translate(fn, env, universe=None):
     """Interpret fn's current source under env (parameter names -> values)."""
     node = fn_ast(fn)
     t = Tr(env, universe)
+    t.globals_ = getattr(getattr(fn, '__func__', fn), '__globals__', None)
     r = t.block(node.body)
     if r is None:
         raise Unsupported('function without return')
@@ -378,7 +470,9 @@ def assigned_expr(fn, target, env, universe=None):
              and isinstance(st.targets[0], ast.Name) and st.targets[0].id == target]
     if len(found) != 1:
         raise Unsupported(f'{len(found)} assignments to {target}')
-    return Tr(env, universe).ex(found[0].value)
+    t = Tr(env, universe)
+    t.globals_ = getattr(getattr(fn, '__func__', fn), '__globals__', None)
+    return t.ex(found[0].value)
 
 
 def qualname(fn):
